@@ -105,13 +105,14 @@ CHECKS.update({
              "removed, see DESIGN 5b), slices > 6, derived eq/cmp/hash factories, formatting.",
         ref="DESIGN.md 4 C19"),
     "C03": dict(
-        engine="X-smt + K-crate",
-        technique="SMT (QF_SLIA) injectivity of the identifier interner read from source; bounded model checking (Kani/CBMC) of capture cells",
+        engine="X-smt",
+        technique="SMT (QF_SLIA) injectivity of the identifier interner, with regex literal, index handling and grammar rule read from source",
         text="The interner's regex literal, index handling and the CNAME grammar rule are read from source on every run: no two distinct "
-             "identifiers of <= 14 characters intern to the same symbol (z3 + z3 5.1/cvc5). Capture-cell creation (from_spec) and runtime "
-             "resolution of pending captures over a 3-level scope stack with symbolic cell contents agree with a reference walker.",
-        note="Trusted: z3/cvc5, the 40-line regex-to-SMT converter, Kani/CBMC. Outside: name lookup through parents, forward-reference "
-             "gating, one-time defaults, closures through builtins, anything needing a compiled program.",
+             "identifiers of <= 14 characters intern to the same symbol (two of z3 4.8.12, z3 5.1, cvc5 must answer unsat); a sat model is "
+             "replayed as a script on the real interpreter.",
+        note="Trusted: z3/cvc5, the 40-line regex-to-SMT converter. Outside: everything else in the property - name lookup through "
+             "parents, capture cells and their runtime resolution (K-crate harnesses exist but do not finish), forward-reference gating, "
+             "one-time defaults, closures through builtins.",
         ref="DESIGN.md 4 C03"),
 })
 CHECKS.update({
